@@ -167,6 +167,7 @@ def probes(R, C, state):
         P += [("load_basis_array:no-basics", "load_basis_array p0 %s %s" % (good_c, "0" * R)),
               ("load_basis_array:too-many-basics", "load_basis_array p0 %s %s" % ("1" + good_c[1:], good_r)),
               ("load_basis_array:bad-char", "load_basis_array p0 %s %s" % ("Z" + good_c[1:], good_r)),
+              ("load_basis_norms:null-norms", "load_basis_norms p0 %s %s 0" % (good_c, good_r)),
               ("load_basis_norms:no-basics", "load_basis_norms p0 %s %s %d %s" % (good_c, "0" * R, R, " ".join(["1"] * R))),
               ("write_basis:bad-basis", "make_basis b7 %d %d %s %s\nwrite_basis p0 b7 @W@/bad.bas" % (C + 1, R, good_c + "0", good_r)),
               ("basis_optimalstatus:size", "make_basis b7 %d %d %s %s\nbasis_optimalstatus p0 b7" % (C + 1, R, good_c + "0", good_r)),
